@@ -314,6 +314,11 @@ def _quiet(fn, *a):
 
 
 def run_history(case, factory=build):
+    with np.errstate(all="ignore"):      # overflow to inf inside a test function is a value like any other here
+        return _run_history(case, factory)
+
+
+def _run_history(case, factory):
     out = Outcome()
     spec = case["spec"]
     cname = spec["cls"]
@@ -335,9 +340,20 @@ def run_history(case, factory=build):
     abs_floor = 1e-12 if cname == "GenzOszillatory" else 0.0   # cos() near a zero: absolute error of the argument
 
     def differs(got, want):
-        # tolerance: 1e-12 relative (rounding between the scalar and the numpy implementation is <= a few ulp)
-        return not np.all(np.abs(got - want) <= 1e-12 * np.abs(want) + abs_floor)
+        # tolerance: 1e-12 relative (rounding between the scalar and the numpy implementation is <= a few ulp; measured
+        # maximum on the unchanged tree 1.1e-15); identical non-finite values (overflow in both paths) agree
+        with np.errstate(invalid="ignore"):
+            ok = (got == want) | (np.isnan(got) & np.isnan(want)) | (np.abs(got - want) <= 1e-12 * np.abs(want) + abs_floor)
+        return not np.all(ok)
 
+    def reldev(got, want):
+        with np.errstate(invalid="ignore", divide="ignore"):
+            r = np.abs(got - want) / (np.abs(want) + abs_floor * 1e12 + 1e-300)
+        r = r[np.isfinite(r)]
+        return float(np.max(r)) if r.size else 0.0
+
+    if not all(np.all(np.isfinite(r)) for r in refs):
+        out.cls("non-finite-value")
     maxdev = 0.0
     seen = set()          # model: distinct points passed to __call__ since the last reset
     caching = True
@@ -382,7 +398,7 @@ def run_history(case, factory=build):
                 if differs(np.asarray(got, float), want):
                     out.bad(SUB_H + "/value/batch", "%s: got %s, fresh eval %s" % (tag, np.asarray(got).tolist(), want.tolist()))
                 else:
-                    maxdev = max(maxdev, float(np.max(np.abs(got - want) / (np.abs(want) + abs_floor * 1e12 + 1e-300))))
+                    maxdev = max(maxdev, reldev(got, want))
             if not plist:
                 out.cls("empty-batch")
             seen.update(plist)
@@ -404,7 +420,7 @@ def run_history(case, factory=build):
                 if differs(got.astype(float), want):
                     out.bad(SUB_H + "/value/%s" % kind, "%s: eval_vectorized %s, fresh eval %s" % (tag, got.tolist(), want.tolist()))
                 else:
-                    maxdev = max(maxdev, float(np.max(np.abs(got - want) / (np.abs(want) + abs_floor * 1e12 + 1e-300))))
+                    maxdev = max(maxdev, reldev(got, want))
         elif kind == "reset":
             f.reset_dictionary()
             seen.clear()
@@ -494,7 +510,8 @@ def run_integral(case, factory=build, sub=SUB_I, rel_tol=1e-9):
     out.info = dict(max_dim=d)
     if not out.violations:      # deviation of the cases that hold: shows the margin between rounding and the tolerance
         key = "max_dev_diagonal_discont" if cname == "FunctionDiagonalDiscont" else "max_rel_dev"
-        out.info[key] = float(np.max(dev / np.maximum(scale, 1e-300)))
+        if np.all(scale >= 1e-3):
+            out.info[key] = float(np.max(dev / scale))
     return out
 
 
@@ -571,6 +588,8 @@ def draw_leaf(draw, cls, d, a, b, for_integral=False, parts=1, composite=False):
         s["midpoint"] = [a[k] + h[k] * draw(st.sampled_from(TAUS_ALL)) for k in range(d)]
         if cls == "FunctionGeneralizedNormal":
             s["exp"] = draw(st.sampled_from([1, 2, 3]))
+            if s["exp"] == 2:      # exp(+(sum c (x-m)^2)^2) grows: keep the exponent small enough not to overflow
+                s["coeffs"] = [c / (8.0 * d) for c in s["coeffs"]]
     elif cls == "FunctionCantileverBeamD":
         s["width"] = draw(st.sampled_from([20.0, 4.0, 1.5]))
         s["thickness"] = draw(st.sampled_from([2.0, 1.0, 0.5]))
